@@ -140,8 +140,62 @@ def h_kl(B, model, keys, constants, point_estimates, negs, at=False):
             B.eq(f"at(new): sample {i} == new mean +/- old residual", flat_of(s), flat_of(_mf(dom, want)))
 
 
+def h_re_constants(B, nsamples):
+    """JAX driver: OptimizeVI.kl_minimize with constants hands the minimiser value / gradient / metric of the sample-averaged
+    Hamiltonian restricted to the free keys, and returns the constant keys unchanged.  Model d ~ N(exp(a) b, 1/s^2), key a
+    constant (the metric couples a and b)."""
+    from ..jaxpr_interp import jcall, jax, jnp
+    from .c12 import jft, setup as setup12
+    setup12()
+    import importlib
+    opt = importlib.import_module("nifty.re.optimize")
+    J = jft()
+    d, s = B.reals("d", (1,)), B.reals("s", ())
+    B.assume(s > 0)
+    pos = {"a": B.reals("pa", (1,)), "b": B.reals("pb", (1,))}
+    res = {"a": B.reals("ra", (nsamples, 1)), "b": B.reals("rb", (nsamples, 1))}
+    t = B.reals("t", (1,))
+
+    def run(d, s, pos, res, t):
+        lh = J.Gaussian(d, noise_cov_inv=lambda x: s * s * x, noise_std_inv=lambda x: s * x).amend(
+            lambda x: jnp.exp(x["a"]) * x["b"], domain={"a": jax.ShapeDtypeStruct((1,), jnp.float64), "b": jax.ShapeDtypeStruct((1,), jnp.float64)})
+        ovi = J.OptimizeVI(lh, 1, jit=False, kl_map=jax.vmap)
+        smp = J.Samples(pos=J.Vector(pos), samples=J.Vector(res), keys=None)
+        cap = {}
+
+        def minimize(fun, x0, fun_and_grad, hessp, **kw):
+            tf = jax.tree_util.tree_map(lambda v: t, x0)
+            val, grad = fun_and_grad(x0)
+            cap.update(val=val, grad=grad, met=hessp(x0, tf), met0=hessp(x0, jax.tree_util.tree_map(jnp.zeros_like, x0)), x0=x0)
+            return opt.OptimizeResults(x=x0, success=True, status=0, fun=val, jac=grad)
+        st = ovi.kl_minimize(smp, minimize=minimize, constants=("a",))
+        leaves = lambda v: jnp.concatenate([jnp.ravel(l) for l in jax.tree_util.tree_leaves(v)])
+        return cap["val"], leaves(cap["grad"]), leaves(cap["met"]), leaves(cap["met0"]), leaves(cap["x0"]), st.x.tree["a"], st.x.tree["b"]
+    val, grad, met, met0, x0, xa, xb = jcall(B, run, d, s, pos, res, t)
+    ex = lambda v: v.exp() if hasattr(v, "exp") else float(np.exp(v))
+    a, b = pos["a"][0], pos["b"][0]
+    Hs, Gs, Ms = [], [], []
+    for i in range(nsamples):
+        ai, bi = a + res["a"][i][0], b + res["b"][i][0]
+        ea = ex(ai)
+        r = s * (d[0] - ea * bi)
+        Hs.append(r * r / 2 + (ai * ai + bi * bi) / 2)
+        Gs.append(-s * s * (d[0] - ea * bi) * ea + bi)          # d/db
+        Ms.append((ea * ea * s * s + 1) * t[0])
+    n = nsamples
+    f = lambda v: list(np.asarray(v, dtype=object).reshape(-1))
+    B.eq("re constants: value handed to the minimiser == sample average of the Hamiltonian", f(val), [sum(Hs, 0) / n])
+    B.eq("re constants: gradient == sample average of the Hamiltonian gradient on the free key", f(grad), [sum(Gs, 0) / n])
+    B.eq("re constants: metric action == sample average of the Hamiltonian metric on the free key", f(met), [sum(Ms, 0) / n])
+    B.eq("re constants: metric applied to the zero tangent is zero", f(met0), [0])
+    B.eq("re constants: the minimiser starts at the free part of the position", f(x0), [b])
+    B.eq("re constants: the constant key is returned unchanged", f(xa), [a])
+    B.eq("re constants: the free key is what the minimiser returned", f(xb), [b])
+
+
 def scenarios(tier, seed):
     quick, thorough = [], []
+    quick.append(("re_constants", {"nsamples": 2}))
     for model, keys in (("prod", "ab"), ("expsum", "ab"), ("prod", "abc"), ("lin", "abc"), ("expsum", "abc")):
         ks = list(keys)
         subsets = [()] + [c for r in range(1, len(ks)) for c in itertools.combinations(ks, r)]
@@ -156,7 +210,7 @@ def scenarios(tier, seed):
     return quick if tier == "quick" else quick + thorough
 
 
-HARNESSES = {"kl": h_kl}
+HARNESSES = {"kl": h_kl, "re_constants": h_re_constants}
 OPTS = {"quick": {"max_paths": 16, "budget_s": 300}, "thorough": {"max_paths": 16, "budget_s": 1500}}
 
 META = {
@@ -172,6 +226,6 @@ META = {
                           "nifty.cl.operators.energy_operators.StandardHamiltonian.{apply,_simplify_for_constant_input_nontrivial}"],
     "bounds": {"samples": "<= 3", "keys": "2-3", "pixels": 2, "splits": "every constants x point-estimates subset pair (3 keys: thorough for the mixed ones)"},
     "stubs": shims_cl.STUBS[:5],
-    "outside": ["drawing the samples (C13/C18)", "MPI-distributed sample lists (C22/C23)", "the JAX driver's kl_value_and_grad / kl_metric (not built in this round)"],
+    "outside": ["drawing the samples (C13/C18)", "MPI-distributed sample lists (C22/C23)", "the JAX driver's kl_value_and_grad / kl_metric for all sample maps (C21); only OptimizeVI.kl_minimize with constants is covered here"],
     "assumptions": [],
 }
